@@ -258,7 +258,11 @@ type mutation struct {
 	// apply performs the documented effect on the model; ok=false: effect not modelled (JS-style
 	// method on a keyed array etc.) — then only "did it change" is recorded.
 	apply func(a *parr) (ok bool)
-	class string // fixed mutation kind: cell | struct | order | nested  ("" = derive from the model), see classify
+	class string // fixed mutation kind: cell | struct | order | nested | ref  ("" = derive from the model), see classify
+	// sibling (class ref only): the plain write to the same slot. A leaking ref write whose sibling
+	// leaks too is the same shared cell (class interior); only when the plain write stays separate is
+	// the leak specific to the reference (class ref).
+	sibling string
 }
 
 func firstKey(a *parr) (pent, bool) {
@@ -463,6 +467,75 @@ func mutations() []mutation {
 			}
 			return "array_pop(" + lv + ");"
 		}, apply: func(a *parr) bool { a.e = a.e[:len(a.e)-1]; return true }},
+		// ---- writes through an explicit reference taken on an ELEMENT of the written name ----
+		{name: "ref-param", class: "ref", sibling: "set-first", src: func(lv string, a *parr) string {
+			k, ok := firstKey(a)
+			if !ok {
+				return ""
+			}
+			return fmt.Sprintf("bumpr(%s[%s]);", lv, k.lit())
+		}, apply: func(a *parr) bool { k, _ := firstKey(a); a.set(pent{str: k.str, ki: k.ki, ks: k.ks}, iv(90)); return true }},
+		{name: "ref-param-nested", class: "ref", sibling: "nested-set", src: func(lv string, a *parr) string {
+			in, k, ok := firstInner(a)
+			if !ok {
+				return ""
+			}
+			k1, ok := firstKey(in)
+			if !ok {
+				return ""
+			}
+			return fmt.Sprintf("bumpn(%s[%s][%s]);", lv, k.lit(), k1.lit())
+		}, apply: func(a *parr) bool {
+			in, _, _ := firstInner(a)
+			k1, _ := firstKey(in)
+			in.set(pent{str: k1.str, ki: k1.ki, ks: k1.ks}, iv(94))
+			return true
+		}},
+		{name: "ref-local", class: "ref", sibling: "set-first", src: func(lv string, a *parr) string {
+			k, ok := firstKey(a)
+			if !ok {
+				return ""
+			}
+			return fmt.Sprintf("$r9 = &%s[%s]; $r9 = 90; unset($r9);", lv, k.lit())
+		}, apply: func(a *parr) bool { k, _ := firstKey(a); a.set(pent{str: k.str, ki: k.ki, ks: k.ks}, iv(90)); return true }},
+		{name: "ref-foreach", class: "ref", sibling: "set-first", src: func(lv string, a *parr) string {
+			if _, ok := firstKey(a); !ok {
+				return ""
+			}
+			return fmt.Sprintf("foreach (%s as &$v9) { $v9 = 90; break; } unset($v9);", lv)
+		}, apply: func(a *parr) bool { k, _ := firstKey(a); a.set(pent{str: k.str, ki: k.ki, ks: k.ks}, iv(90)); return true }},
+		{name: "ref-closure", class: "ref", sibling: "set-first", src: func(lv string, a *parr) string {
+			k, ok := firstKey(a)
+			if !ok {
+				return ""
+			}
+			return fmt.Sprintf("$r9 = &%s[%s]; $g9 = function() use (&$r9) { $r9 = 90; return 0; }; $g9(); unset($r9);", lv, k.lit())
+		}, apply: func(a *parr) bool { k, _ := firstKey(a); a.set(pent{str: k.str, ki: k.ki, ks: k.ks}, iv(90)); return true }},
+		{name: "ref-nested-sort", class: "ref", sibling: "nested-set", src: func(lv string, a *parr) string {
+			in, k, ok := firstInner(a)
+			if !ok || len(in.e) < 2 {
+				return ""
+			}
+			return fmt.Sprintf("sort(%s[%s]);", lv, k.lit())
+		}, apply: func(a *parr) bool {
+			in, _, _ := firstInner(a)
+			if !in.allScalarInt() {
+				return false
+			}
+			sort.SliceStable(in.e, func(i, j int) bool { return in.e[i].v.n < in.e[j].v.n })
+			for i := range in.e {
+				in.e[i].str, in.e[i].ks = false, ""
+			}
+			in.renumber()
+			return true
+		}},
+		{name: "ref-nested-push", class: "ref", sibling: "nested-append", src: func(lv string, a *parr) string {
+			_, k, ok := firstInner(a)
+			if !ok {
+				return ""
+			}
+			return fmt.Sprintf("array_push(%s[%s], 99);", lv, k.lit())
+		}, apply: func(a *parr) bool { in, _, _ := firstInner(a); in.push(iv(99)); return true }},
 		{name: "f-shift", src: func(lv string, a *parr) string {
 			if len(a.e) == 0 {
 				return ""
@@ -503,6 +576,8 @@ func classify(m mutation, before *parr) string {
 	switch m.class {
 	case "nested", "cell":
 		return "interior"
+	case "ref":
+		return "ref"
 	case "order", "struct":
 		return "toplevel:" + family(m.name)
 	}
